@@ -46,7 +46,7 @@ def menu(basename):
         if basename == "R3":
             m += [["set", "switch", 0, "z_ohm", 0.5], ["set", "switch", 0, "closed", False], ["set", "switch", 1, "closed", False],
                   ["switch", 2, 1, "l", False, 0.], ["impedance", 1, 2, False], ["impedance", 0, 3, True], ["line", 0, 2, 1, True],
-                  ["load", 3, 1.5, 0.5, "P", 1., True]]
+                  ]
         else:
             m += [["set", "switch", 0, "closed", False], ["impedance", 1, 3, False], ["impedance", 1, 3, True], ["line", 0, 2, 2, True],
                   ["set", "line", 3, "in_service", False]]
@@ -74,6 +74,8 @@ def menu(basename):
 
 
 BASES = ["R3", "M4", "T3", "W3"]
+# every case of a base starts from these deviations: a load behind the bus-bus switch, so that an impedance switch carries current
+PRE = {"R3": [["load", 3, 1.5, 0.5, "P", 1., True]], "T3": [["load", 3, 1.0, 0.3, "P", 1., True]]}
 
 
 def _cmp(vs, tab, idx, ref, res, optname, case_tokens):
@@ -216,7 +218,7 @@ def gen_cases(tier):
     for b in BASES:
         m = menu(b)
         for devs in na.subsets(m, 2):
-            cases.append({"base": b, "devs": [list(d) for d in devs], "optsets": optsets})
+            cases.append({"base": b, "devs": PRE.get(b, []) + [list(d) for d in devs], "optsets": optsets})
         if b in ("T3", "W3"):
             el = "trafo" if b == "T3" else "trafo3w"
             pre = ["set", el, 0, "tap_pos", 1]
@@ -224,11 +226,11 @@ def gen_cases(tier):
                                                                                   "shift_degree", "shift_mv_degree", "shift_lv_degree", "tap_neutral")]
             for devs in na.subsets(tapmenu, 2):
                 if devs:
-                    cases.append({"base": b, "devs": [pre] + [list(d) for d in devs], "optsets": ["t", "noangles", "dc"]})
+                    cases.append({"base": b, "devs": PRE.get(b, []) + [pre] + [list(d) for d in devs], "optsets": ["t", "noangles", "dc"]})
         if tier == "thorough" and b in ("T3", "W3"):
             for devs in na.subsets(m, 3):
                 if len(devs) == 3:
-                    cases.append({"base": b, "devs": [list(d) for d in devs], "optsets": ["t", "pi", "noangles", "dc"]})
+                    cases.append({"base": b, "devs": PRE.get(b, []) + [list(d) for d in devs], "optsets": ["t", "pi", "noangles", "dc"]})
     return cases
 
 
